@@ -97,6 +97,8 @@ class C09(Prop):
             # wss:// - the socket is TLS-wrapped; the handshake of an address can fail after its TCP connect
             # succeeded, and a failed transport reports TLS errors
             "tls": gen.weighted([(2, st.just(False)), (1, st.just(True))]),
+            # an earlier connection in this process (same WebSocket object or another) and how it ended
+            "prelude": gen.prelude(6),
         })
 
     # ------------------------------------------------------------------
